@@ -536,6 +536,9 @@ type AssertHint struct {
 	Snippet string
 	C       *Clause
 	Use     *UseLemma // instead of a checked assertion: a proved lemma instantiated after the anchored statement
+	// monitor rule: after the anchored statement (a lock acquisition or a Cond.Wait that re-acquires) the listed shared
+	// locations hold arbitrary values that satisfy the monitor invariant C (which every release must re-establish)
+	Enter []*Clause
 }
 
 type CallSpec struct {
@@ -630,7 +633,7 @@ func NewSpecSet() *SpecSet {
 
 var clauseKeywords = map[string]bool{"requires": true, "ensures": true, "modifies": true, "pure": true, "trusted": true, "lemma": true,
 	"loop": true, "invariant": true, "decreases": true, "callspec": true, "observe": true, "replay": true, "prop": true, "func": true,
-	"sort": true, "seqsort": true, "fun": true, "ghost": true, "axiom": true, "define": true, "inline": true, "noinline": true, "guarded": true, "flag": true, "loopmodifies": true, "lockrequires": true, "lockensures": true, "lockinvariant": true, "witness": true, "loopfresh": true, "assumes": true, "loopkeeps": true, "assert": true, "acquires": true, "induction": true, "uselemma": true}
+	"sort": true, "seqsort": true, "fun": true, "ghost": true, "axiom": true, "define": true, "inline": true, "noinline": true, "guarded": true, "flag": true, "loopmodifies": true, "lockrequires": true, "lockensures": true, "lockinvariant": true, "witness": true, "loopfresh": true, "assumes": true, "loopkeeps": true, "assert": true, "acquires": true, "induction": true, "uselemma": true, "monitorenter": true}
 
 // ActiveFacets: facets whose "@name ..." clauses are part of the contracts in this run (set before the specs are loaded).
 var ActiveFacets = map[string]bool{}
@@ -865,6 +868,35 @@ func (ss *SpecSet) ParseSpecLines(lines []SpecLine, pkgPath string, keyPrefix st
 					return fmt.Errorf("%s:%d: %v", it.src.File, it.src.Line, err)
 				}
 				cur.Induction = &InductionSpec{Var: strings.TrimSpace(f[0]), Measure: mx, Src: it.src}
+			case "monitorenter":
+				// monitorenter "source snippet" modifies a, b, c assume EXPR
+				r := strings.TrimSpace(it.rest)
+				if !strings.HasPrefix(r, "\"") {
+					return fmt.Errorf("%s:%d: monitorenter needs a quoted source snippet", it.src.File, it.src.Line)
+				}
+				q := strings.Index(r[1:], "\"")
+				if q < 0 {
+					return fmt.Errorf("%s:%d: unterminated snippet", it.src.File, it.src.Line)
+				}
+				snippet := r[1 : 1+q]
+				rest := strings.TrimSpace(r[q+2:])
+				if !strings.HasPrefix(rest, "modifies ") || !strings.Contains(rest, " assume ") {
+					return fmt.Errorf("%s:%d: monitorenter \"snippet\" modifies ITEMS assume EXPR", it.src.File, it.src.Line)
+				}
+				k := strings.Index(rest, " assume ")
+				var mods []*Clause
+				for _, m := range splitTop(rest[len("modifies "):k], ',') {
+					c, err := mk("modifies", strings.TrimSpace(m), it.src)
+					if err != nil {
+						return err
+					}
+					mods = append(mods, c)
+				}
+				c, err := mk("assume", rest[k+len(" assume "):], it.src)
+				if err != nil {
+					return err
+				}
+				cur.Asserts = append(cur.Asserts, &AssertHint{Snippet: snippet, C: c, Enter: mods})
 			case "uselemma":
 				// uselemma ["source snippet"] name(arg, _, ...)
 				snippet := ""
